@@ -244,6 +244,10 @@ pub fn run(cx: &mut Cx, w: &World, rng: &mut Rng, budget: u64) {
   directed.push(format!("did:example:{}", "a".repeat(gen::MAX_LEN - 12)));
   directed.push(format!("did:example:1#{}", "%41".repeat(20_000)));
   directed.push(format!("{}did:example:1", " ".repeat(1000)));
+  // long texts in which every byte offset falls inside a multi-byte character in one of the variants
+  for prefix in ["did:example:", "did:example:1#", "did:example:1?", "did:iota:0x", ""] {
+    directed.extend(gen::wide_ladders(prefix, 'a', 600));
+  }
   for (k, s) in directed.iter().enumerate() {
     if cx.args.mine(k as u64) {
       feed(cx, s, &bases, true);
